@@ -44,7 +44,7 @@ class Hist(object):
     """one history: a Build plus the bookkeeping that only histories need"""
 
     def __init__(self, alg, base, rnd=None):
-        self.b = Build(alg, T0)
+        self.b = Build(alg, T0, observe=bool(rnd.random() < 0.5) if rnd is not None else (sum(map(ord, str(base))) % 2 == 1))
         self.rnd = rnd
         self.clock = 0
         self.n = collections.Counter()
